@@ -135,6 +135,18 @@ def run_check(mod, pid, tier, seed, replay=None):
             if bad:
                 ok = False
                 log = "unexpected axioms: %s" % bad
+    if ok and tier == "thorough" and os.environ.get("VERIF_NO_COQCHK") != "1":
+        # independent re-check of the compiled property file and everything it depends on
+        try:
+            pc = subprocess.run(["timeout", "1500", "coqchk", "-silent", "-o", "-Q", coqrun.COQDIR, "PPV",
+                                 "PPV.Properties.%s" % pid], capture_output=True, text=True)
+            proof["coqchk_exit"] = pc.returncode
+            proof["coqchk_report"] = (pc.stdout + pc.stderr)[-3000:]
+            if pc.returncode not in (0,):
+                ok = False
+                log = "coqchk failed: " + proof["coqchk_report"][-500:]
+        except Exception as e:
+            proof["coqchk_exit"] = "error %s" % e
     proof["build_s"] = round(time.time() - t, 1)
     if not ok:
         m = re.search(r'File "([^"]+)", line (\d+)', log)
@@ -231,6 +243,7 @@ def run_check(mod, pid, tier, seed, replay=None):
             "histogram": ctx.hist,
             "known_finding_hits": ctx.known_hits,
             "proof_build_s": proof["build_s"],
+            "coqchk": {k: proof[k] for k in ("coqchk_exit", "coqchk_report") if k in proof},
             "notes": ctx.notes,
             **ctx.extra,
         },
